@@ -264,6 +264,24 @@ func (t *c19Task) run(op c19Op, sh *c19Shared) (res string) {
 		}
 		return observe(t.m, func() string { b, _ := t.m.MarshalJSON(); return fmt.Sprintf("ownmap len=%d %s", t.m.Len(), b) })
 	// ---- read-only calls on shared objects
+	case "sh.unmarshal":
+		// a copy of the shared map made with ordered.Unmarshal belongs to the task: editing it is its own business
+		var dst *ordered.MapSA
+		if err := ordered.Unmarshal(sh.m, &dst); err != nil || dst == nil {
+			return fmt.Sprintf("sh.unmarshal err=%v", err)
+		}
+		dst.Set("s0", fmt.Sprintf("mine-%d", t.id))
+		dst.Set(fmt.Sprintf("task-%d", t.id), op.arg)
+		dst.Delete("s2")
+		dst.Replace("s3", "s3-renamed", t.id)
+		b, _ := dst.MarshalJSON()
+		// the items list a map is built from stays the caller's too
+		items := []ordered.TupleSA{{Key: "p", Value: "1"}, {Key: "q", Value: "2"}, {Key: "r", Value: "3"}}
+		m1, m2 := ordered.MapFromItems(items...), ordered.MapFromItems(items...)
+		m1.Set("p", "changed")
+		m1.Delete("q")
+		b2, _ := m2.MarshalJSON()
+		return fmt.Sprintf("sh.unmarshal %s | %s %v", hashBytes(b), b2, items)
 	case "sh.get":
 		k := fmt.Sprintf("s%d", op.arg%8)
 		v, ok := sh.m.Get(k)
@@ -507,12 +525,12 @@ func runC19(c *engine.Ctx) {
 		ntasks = 2 + ntasks%4
 	}
 	private := []string{"interpolate", "json", "yaml", "sign", "verify", "matrix", "ownmap", "ownmap", "keygen", "shuffle-fields"}
-	shared := []string{"sh.get", "sh.range", "sh.equal", "sh.tomap", "sh.tomaprec", "sh.mapjson", "sh.mapyaml", "sh.pljson", "sh.plyaml", "sh.fullsource", "sh.verify", "sh.sign", "sh.wverify", "sh.wsign"}
+	shared := []string{"sh.get", "sh.range", "sh.equal", "sh.unmarshal", "sh.tomap", "sh.tomaprec", "sh.mapjson", "sh.mapyaml", "sh.pljson", "sh.plyaml", "sh.fullsource", "sh.verify", "sh.sign", "sh.wverify", "sh.wsign"}
 	mode := p.Draw(3, "cfg:mix") // 0 mixed, 1 mostly shared, 2 mostly private
 	coldOp := c19Op{}
 	if cold {
 		// only the shared ordered map exists; calls on a shared pipeline are not available
-		shared = []string{"sh.get", "sh.range", "sh.equal", "sh.tomap", "sh.tomaprec", "sh.mapjson", "sh.mapyaml"}
+		shared = []string{"sh.get", "sh.range", "sh.equal", "sh.unmarshal", "sh.tomap", "sh.tomaprec", "sh.mapjson", "sh.mapyaml"}
 		all := append(append([]string{}, shared...), private...)
 		coldOp = c19Op{kind: all[p.Draw(len(all), "cfg:cold-op")], arg: p.Draw(64, "cfg:cold-arg")}
 		c.Probe("cold_start_runs")
